@@ -13,6 +13,10 @@ CLAIMED = {
    text="BrokerConn.tla is model-checked for re-send set/order, no re-send of completed requests, once per connection, reconnect-iff-pending, backoff policy and close, with connection loss enabled in every state (incl. mid-frame, connecting, backoff); the same behaviours and seeded random fault schedules are executed on the real _KafkaBrokerClient and validated step by step by TLC.",
    ref="DESIGN.md 6.1, 7 (C10)",
    note="Trusted: TLC, simulated network/clock. The retry policy is an explicit table (0.1, 0.2, 0.4 s) rather than Twisted's jittered default."),
+ "C18": dict(
+   text="Murmur2.tla transcribes the Java client's murmur2 in 16-bit limb arithmetic and is pinned to the six vectors of Apache Kafka's UtilsTest by ASSUMEs; TLC enumerates every key over a 5-byte alphabet up to length 5 (quick) / 6 (thorough) and emits hash and partition picks that are compared with pure_murmur2 and HashedPartitioner for bytes/bytearray/str forms; Partitioner.tla model-checks round-robin fairness over all histories with list changes from every start, its behaviours are replayed on the real objects (random start forced to the model's), and recorded call histories of long-lived partitioner objects are validated by TLC.",
+   ref="DESIGN.md 6.8, 7 (C18)",
+   note="Trusted: TLC, the six Java-produced anchor values. Not covered: the optional C extension murmurhash2 (not installed); uniformity of the random start (statistical)."),
 }
 PENDING_REASON = "check not built yet in this round (framework under construction; see DESIGN.md section 12 for the order)"
 
